@@ -16,7 +16,7 @@ LOOP_TAG = {
 def loop_clear(idx):
     return {
         "fn": CT, "idx": idx, "line": r"plaintext_len > 0",
-        "assigns": "plaintext, plaintext_len, __CPROVER_object_whole(plaintext)",
+        "assigns": "plaintext, plaintext_len, __CPROVER_object_upto(plaintext, plaintext_len)",
         "inv": ("plaintext_len <= LE(plaintext_len) && plaintext == LE(plaintext) + (LE(plaintext_len) - plaintext_len) && "
                 "(accum == 0 || accum == -1) && "
                 "((tjv_k < LE(plaintext_len) - plaintext_len) ==> (LE(plaintext)[tjv_k] == (LE(LE(plaintext)[tjv_k]) & accum))) && "
